@@ -30,6 +30,7 @@ func main() {
 		noSelf  = flag.Bool("noselftest", false, "skip the mutant self-tests (development only)")
 		verbose = flag.Bool("v", false, "print every obligation")
 		outDir  = flag.String("out", "", "directory for evidence files (default <verif>/evidence)")
+		catalog = flag.Bool("catalogue", false, "print the rule catalogue and the property table as markdown and exit")
 	)
 	flag.Parse()
 	if *verif == "" {
@@ -47,6 +48,25 @@ func main() {
 		*outDir = filepath.Join(*verif, "evidence")
 	}
 	start := time.Now()
+	if *catalog {
+		fmt.Println("| rule | min. instances | decides | in-memory mutants (must fire on every run) |")
+		fmt.Println("|---|---|---|---|")
+		for _, id := range rules.All() {
+			r := rules.Get(id)
+			var ms []string
+			for _, m := range rules.MutantsOf(id) {
+				ms = append(ms, m.Name)
+			}
+			fmt.Printf("| %s | %d | %s | %s |\n", id, r.Min, r.Doc, strings.Join(ms, ", "))
+		}
+		fmt.Println()
+		fmt.Println("| property | rules |")
+		fmt.Println("|---|---|")
+		for _, id := range rules.Properties() {
+			fmt.Printf("| %s | %s |\n", id, strings.Join(rules.PropertyOf(id).Rules, ", "))
+		}
+		return
+	}
 
 	prog, err := core.Load(*repo, nil)
 	if err != nil {
@@ -287,6 +307,13 @@ func runMutants(repo string, ruleIDs []string, perRule int, seed int) []mutantRe
 				return
 			}
 			mutated := strings.Replace(string(src), j.m.Old, j.m.New, 1)
+			if j.m.Old2 != "" {
+				if !strings.Contains(mutated, j.m.Old2) {
+					res.Status, res.Detail = "skipped", "second anchor text not present in "+j.m.File
+					return
+				}
+				mutated = strings.Replace(mutated, j.m.Old2, j.m.New2, 1)
+			}
 			mp, err := core.Load(repo, map[string][]byte{file: []byte(mutated)})
 			if err != nil {
 				res.Status, res.Detail = "skipped", "mutant does not load: "+firstLine(err.Error())
